@@ -54,6 +54,7 @@ class C03(Check):
         "empty / over-long line and record order == scaffold order. CLI case = (FASTA, PretextView map) through pretext-to-asm -o x.fa: "
         "each .fa equals its .agp applied to the input, names unique, AGP object length == record length. non-trivial = scaffold crosses an "
         "input line boundary or a buffer boundary or has a minus row or a gap"
+        " Index built with the same small buffer as the stream. Long family: 20 000 / 9 000 residue records (LF/CRLF) at buffers 250000, 10000, 4096, 61, rows crossing 8 KiB of whole lines."
     )
     assumptions = [
         "two fixed records whose residues are pairwise distinguishable under complement; streaming is data-oblivious",
